@@ -272,16 +272,16 @@ var typChoices = []uint16{1300, 1300, 1302, 1307, 1309, 1400, 1326, 2099, 1301,
 	eoe, eoe, 1327, 1100, 1299, 2100, 1000, 0, 65535, 1305}
 
 type genCfg struct {
-	windowed  bool
-	timeouts  []time.Duration
-	maxMax    int
-	maxOps    int
-	sleeps    []int // microseconds; empty = no sleep ops
-	raw       bool  // include Push(type, raw) and malformed pushes
-	nilPush   bool
-	midClose  bool // allow Close (and calls after it) in the middle
-	endClose  bool // always end with Close
-	gapBias   bool
+	windowed bool
+	timeouts []time.Duration
+	maxMax   int
+	maxOps   int
+	sleeps   []int // microseconds; empty = no sleep ops
+	raw      bool  // include Push(type, raw) and malformed pushes
+	nilPush  bool
+	midClose bool // allow Close (and calls after it) in the middle
+	endClose bool // always end with Close
+	gapBias  bool
 }
 
 func genHistory(t *rapid.T, c genCfg) History {
